@@ -393,5 +393,5 @@ func DerivePrograms(tier string, seed int) []Program {
 	return append([]Program{
 		{Pkg: "q1", Files: map[string][]byte{"thing.go": []byte(deriveQ1)}, NoGombok: true, Desc: "support package with its own instance"},
 		{Pkg: "d1", Files: map[string][]byte{"types.go": []byte(deriveTypes)}, Harness: map[string][]byte{"zz_verif_harness.go": []byte(deriveHarness)}, Desc: "derive: plain, nested, generic, recursive, precedence"},
-	}, append(append(append(derive2Programs(), derive3Programs()...), derive4Programs()...), append(append(append(derive5Programs(), derive6Programs()...), derive7Programs()...), derive8Programs()...)...)...)
+	}, append(append(append(derive2Programs(), derive3Programs()...), derive4Programs()...), append(append(append(derive5Programs(), derive6Programs()...), derive7Programs()...), append(derive8Programs(), derive9Programs()...)...)...)...)
 }
